@@ -429,6 +429,20 @@ BExchange(s0, h, add, rem, tg) ==
         r    == FindOrCreateTable(s0, ot.arch, rem, add, ntg)
     IN IF ~Ok(r.s) THEN r.s ELSE RegisterTargets(MoveEntity(r.s, h, r.t), tg)
 
+\* The storage that removal observers see (C09): World.remove / exchange have found or created the destination
+\* table and run OnRemoveComponents / OnRemoveRelations BEFORE the entity is added to it
+\* (world_internal.go:103-141, :155-198 as repaired; the pinned tree added the row first: RowTwice).
+BRemoveCbState(s0, h, add, rem, tg) ==
+    LET ot   == s0.tabs[TableOf(s0, h)]
+        ntg  == Merge(Drop(ot.tg, rem), tg)
+    IN FindOrCreateTable(s0, ot.arch, rem, add, ntg).s
+
+\* every alive entity is stored in exactly one row
+EntityOnce(s) ==
+    \A p \in DOMAIN s.eidx : s.eidx[p].t # NoTable =>
+        Cardinality({<<t, r>> \in {<<t2, r2>> \in (DOMAIN s.tabs) \X (1..8) : r2 \in DOMAIN s.tabs[t2].rows} :
+                        s.tabs[t].rows[r][1] = p + 1}) = 1
+
 \* World.setRelations (world_internal.go:368-436)
 BSetRel(s0, h, tg) ==
     LET ot  == s0.tabs[TableOf(s0, h)]
